@@ -86,6 +86,7 @@ type ChanObj struct {
 	Buf    []Value
 	Cap    int
 	Closed bool
+	RecvWaiting bool // the interpreted goroutine is parked in a receive on this channel (idle hook running)
 	Nondet string // non-empty: environment-driven channel (ticker); value = label
 	ET     types.Type
 }
